@@ -51,7 +51,8 @@ func checkC15(c *Ctx, r *Report) {
 					return 1
 				}
 				return 0
-			}}).Run()
+			},
+			Maybe: func(in ssa.Instruction) bool { return selectSendUntested(in, chanOf(isSink), isEvt) }}).Run()
 		r1.Check(res.only(1), elk+": every path sends evt on sink.ch exactly once", f.Pos(), res.paths, res.String(), "a slow subscriber's event is dropped (or delivered twice)", res.String())
 	}
 	for _, k := range []struct{ fn, sinksField string }{{nodeM("emit"), nodeT + ".sinks"}, {wM("emit"), wT + ".sinks"}} {
@@ -111,7 +112,8 @@ func checkC15(c *Ctx, r *Report) {
 					return 1
 				}
 				return 0
-			}}).Run()
+			},
+			Maybe: func(in ssa.Instruction) bool { return selectSendUntested(in, chanOf(isSink), isEvt) }}).Run()
 		r1.Check(res.only(1), k.fn+": every iteration over the sinks sends evt to that sink exactly once", f.Pos(), res.paths, res.String(), "an event is dropped for (or delivered twice to) a subscriber", res.String())
 	}
 	if f := r1.need("(*" + ebP + ".emitter).Emit"); f != nil {
